@@ -243,6 +243,10 @@ class DType:
     def __init__(self, cls):
         self.cls = cls          # 'real' | 'complex' | 'bool' | 'int'
 
+    @property
+    def kind(self):
+        return {'real': 'f', 'complex': 'c', 'int': 'i', 'bool': 'b'}[self.cls]
+
     def __eq__(self, o):
         if isinstance(o, DType):
             return self.cls == o.cls
@@ -714,6 +718,10 @@ def reshape(a, shape):
         known = a.tags['mx_unf']
     if a.ndim == 1 and 'mx' in a.tags and sum(1 for x in shape if not is_one(x)) <= 1:
         tags['mx'] = a.tags['mx']                   # s.reshape(k, 1, 1, 1): still the diagonal factor
+        if len(shape) >= 2 and all(is_one(x) for x in shape[1:]):
+            tags['diag_side'] = 'left'
+        elif len(shape) >= 2 and all(is_one(x) for x in shape[:-1]):
+            tags['diag_side'] = 'right'
     elif len(shape) == 2:
         if known is not None and sz_eq(known[1], shape[0]):
             tags['mx'] = known[0]
@@ -1092,6 +1100,7 @@ def getitem(a, idx):
             r.tags['mx'] = m_
     elif m_ is not None and a.ndim == 1 and any(x is None for x in idx) and all(x is None or (isinstance(x, slice) and x == slice(None)) for x in idx):
         r.tags['mx'] = m_                      # s[:, None] / s[None, :]: still the diagonal factor, the shape says on which side it acts
+        r.tags['diag_side'] = 'left' if (len(idx) >= 2 and idx[0] is not None and all(x is None for x in idx[1:])) else ('right' if idx[-1] is not None and all(x is None for x in idx[:-1]) else None)
     return r
 
 
@@ -1345,6 +1354,10 @@ def diag_scaling(r, x, o, name, rev):
             continue
         if nz:
             ax = nz[0] + (big.ndim - small.ndim)        # the axis of `big` the diagonal acts on
+        elif small.tags.get('diag_side') == 'left' and is_one(big.shape[0]):
+            ax = 0                                      # a 1 x 1 diagonal factor written as a column ( s[:, None] ): acts from the left
+        elif small.tags.get('diag_side') == 'right' and is_one(big.shape[-1]):
+            ax = big.ndim - 1
         elif is_one(big.shape[-1]):
             ax = big.ndim - 1                           # a 1 x 1 diagonal factor (rank-1 bond)
         elif is_one(big.shape[0]):
